@@ -125,7 +125,15 @@ def discharge1(axioms, obl, seed=0, want_model=True, cross=False, quick_only=Fal
         s = mk_solver(axioms, obl.pc, obl.goal, seed, timeout=2500 if quick_only else None,
                       fuel=fuel)
         uses_defs = s.num_unfolded > 0
-        r = s.check()
+        if fuel == FUELS[0] and not quick_only:
+            # short first attempt, then the relevance pass, then the full budget: the few
+            # obligations whose full query times out but whose slim query is immediate no longer
+            # sit at the edge of the wall-clock budget
+            s.set('timeout', 2000)
+            r = s.check()
+            s.set('timeout', Z3_TIMEOUT_MS)
+        else:
+            r = s.check()
         res['fuel'] = fuel
         if r != z3.unsat and fuel == FUELS[0] and not quick_only:
             # relevance pass: many obligations need none of the quantified hypotheses
@@ -136,6 +144,8 @@ def discharge1(axioms, obl, seed=0, want_model=True, cross=False, quick_only=Fal
                 if s0.check() == z3.unsat:
                     res.update(status='discharged', time=round(time.time() - t0, 4), slim=True)
                     return res
+            if r == z3.unknown:
+                r = s.check()       # full budget
         if r == z3.unsat or not uses_defs:
             break
         if r == z3.unknown and time.time() - t0 > (Z3_TIMEOUT_MS / 1000.0):
